@@ -1,8 +1,6 @@
 /* runtime shared by all harnesses (both CBMC and native replay builds) */
 #include "verif.h"
 
-uint64_t verif_in[VERIF_IN_MAX];
-unsigned verif_in_n;
 int verif_stop_is_violation = 1;
 int verif_aborted;
 
